@@ -30,7 +30,7 @@ def prop(pid, rules, explanation, level, note, technique, design_ref, assumption
 
 
 prop('C01',
-     [PD.pd1, PD.pd2, PD.pd3, PD.pd4, PD.pd5, SC.pd6, MI.pd0, MI.tx1, MI.df1, OK.ok4, EM.em1, AB.ab1, LS.ls1, LS.ls1_ml, LS.ls1_shell, AB.ab3,
+     [PD.pd1, PD.pd2, PD.pd3, PD.pd4, PD.pd5, PD.pd8, SC.pd6, MI.pd0, MI.tx1, MI.df1, OK.ok4, EM.em1, AB.ab1, LS.ls1, LS.ls1_ml, LS.ls1_shell, AB.ab3,
       T.sp3],
      'inductive argument from static rules: tokens outside the scanner are pinned, '
      'single-character or faithful copies (PD1, PD2, SP3), pinned positions are never shifted '
@@ -265,7 +265,7 @@ prop('C19',
      'DESIGN.md 3.8 (UK1-UK4), 4 C19')
 
 prop('C20',
-     [RX.ck1, RX.ck4, RX.ck5, RX.ab4],
+     [RX.ck1, RX.ck4, RX.ck5, RX.ab4, OK.ok2, PS.ps1],
      'single-letter scan pattern has width 1 between word boundaries and letters only, accepted '
      'patterns are literal, the suppression test is beg <= position < end with the right '
      'strictness, offset and length come from one match (CK1); the equation-punctuation pattern '
